@@ -59,7 +59,11 @@ def load(hist):
         LOAD_HANGS[0] += 1
         return None, {"err": "hang"}
     except Exception as e:  # noqa
-        return None, {"err": err_name(e)}
+        info = {"err": err_name(e)}
+        later = refused_then_asked_again(locals().get("sd"))
+        if later:
+            info["later"] = later
+        return None, info
     revs = [m._revision_map[r["id"]] for r in hist]
     info = {
         "heads": sorted(m.heads),
@@ -78,6 +82,36 @@ def load(hist):
         if len(r._normalized_resolved_dependencies) > 1
     ]
     return sd, {"ok": info, "normOrder": norm_order}
+
+
+def refused_then_asked_again(sd):
+    """a history whose load was refused stays refused: the same object asked again for its heads and bases
+    (attributes and the ScriptDirectory accessors that read them) must refuse again.  Returns the accessors
+    that answered instead, with what they answered."""
+    if sd is None:
+        return []
+    m = sd.revision_map
+    out = []
+    probes = [
+        ("RevisionMap.heads", lambda: m.heads),
+        ("RevisionMap.bases", lambda: m.bases),
+        ("RevisionMap._real_heads", lambda: m._real_heads),
+        ("RevisionMap._real_bases", lambda: m._real_bases),
+        ("ScriptDirectory.get_heads()", sd.get_heads),
+        ("ScriptDirectory.get_bases()", sd.get_bases),
+        ("ScriptDirectory.get_current_head()", sd.get_current_head),
+        ("RevisionMap.heads (again)", lambda: m.heads),
+    ]
+    with warnings.catch_warnings():
+        warnings.simplefilter("ignore")
+        for name, fn in probes:
+            try:
+                with alarm(0.5):
+                    v = fn()
+            except Exception:  # noqa
+                continue
+            out.append([name, sorted(v) if isinstance(v, (tuple, list, set, frozenset)) else str(v)])
+    return out
 
 
 def canon_model_load(ans):
